@@ -214,6 +214,12 @@ fn read<T, E>(
         ("BloomFilter::deserialize", _) => "BloomFilter::deserialize[with-data]",
         (l, "empty-form") if l.starts_with("CountMinSketch<") => cm_label(l, true),
         (l, "with-data") if l.starts_with("CountMinSketch<") => cm_label(l, false),
+        // Frequent Items: the image's own lg_cur_map_size byte asks for a map beyond the input's budget
+        (l, _) if l.starts_with("FrequentItemsSketch<") && ctx.buf.len() > 4 && ctx.buf[4] < 64 && (1u128 << ctx.buf[4]) * 18 > budget(ctx.buf.len()) as u128 => match l {
+            "FrequentItemsSketch<i64>::deserialize" => "FrequentItemsSketch<i64>::deserialize[lg_cur-sized]",
+            "FrequentItemsSketch<u64>::deserialize" => "FrequentItemsSketch<u64>::deserialize[lg_cur-sized]",
+            _ => "FrequentItemsSketch<String>::deserialize[lg_cur-sized]",
+        },
         (l, _) => l,
     });
     let (r, rep) = alloc::scoped(|| lib_call(label, f));
@@ -290,6 +296,16 @@ fn recover_hll(mut v: HllSketch, ctx: &Ctx, st: &mut RunStats) -> Result<(), Vio
             v.verif_update_with_coupon(((1 + (i % 50)) << 26) | (i.wrapping_mul(2654435761) & 0x3ff_ffff));
         }
         let _ = (v.estimate(), v.upper_bound(NumStdDev::Three), v.serialize());
+        // every register raised past any exception threshold, then to the maximum (small lg_k only)
+        if v.lg_config_k() <= 10 {
+            let k = 1u32 << v.lg_config_k();
+            for val in [40u32, 63] {
+                for slot in 0..k {
+                    v.verif_update_with_coupon((val << 26) | slot);
+                }
+                let _ = (v.estimate(), v.serialize());
+            }
+        }
     })
     .map_err(|e| viol(ctx, e))?;
     st.lib_calls += 1;
@@ -683,6 +699,10 @@ impl Scenario for C14 {
         // swarm: which fault campaigns this run carries
         let campaigns = rng.below(1 << 6) | 1 << rng.below(6);
         let l = len as u32;
+        if fam.ends_with("_foreign") {
+            // foreign-writer images (some of them self-consistent lies) are also delivered as they are
+            acts.push(Act::Deliver { faults: vec![] });
+        }
         if campaigns & 1 != 0 {
             // truncation at every offset (bounded for long images: dense head and tail)
             if l <= 1500 {
@@ -864,6 +884,20 @@ impl Scenario for C14 {
                                     b[fpos..fpos + 4].copy_from_slice(&c.to_le_bytes());
                                     st.fault("header_pair");
                                     deliver!(fam, &b, &format!("HeaderPair byte {bpos}={bval:#x} field {fpos}={c:#x}"), st)?;
+                                }
+                            }
+                        }
+                    }
+                    // ... and every pair of header bytes (two size exponents that must agree, e.g. lg_max / lg_cur)
+                    for i in 0..8usize.min(img.len()) {
+                        for j in i + 1..8usize.min(img.len()) {
+                            for vi in [0u8, 1, 3, 4, 8, 16, 26, 31, 0xff] {
+                                for vj in [0u8, 1, 3, 4, 8, 16, 26, 31, 0xff] {
+                                    let mut b = img.clone();
+                                    b[i] = vi;
+                                    b[j] = vj;
+                                    st.fault("header_byte_pair");
+                                    deliver!(fam, &b, &format!("HeaderBytes {i}={vi:#x} {j}={vj:#x}"), st)?;
                                 }
                             }
                         }
